@@ -41,7 +41,8 @@ PAR_OK = [n for n, e in POOL.items() if e.independent and e.feat and e.selection
           and n not in ("EMCM", "QBC_VE_list", "QBC_VR_list")]
 # wrapped strategies that consume random numbers before their own selection step: under exact ties their tie-break uses a
 # later draw than the wrapper's, so the selection is only compared when the best candidate is unique
-TIE_RNG_DIFFERS = {"CostEmbeddingAL", "CostEmbeddingAL_cm", "GreedySamplingX", "GreedySamplingTarget", "GreedySamplingTarget_GSy"}
+TIE_RNG_DIFFERS = {"CostEmbeddingAL", "CostEmbeddingAL_cm", "GreedySamplingX", "GreedySamplingX_manhattan", "GreedySamplingTarget",
+                   "GreedySamplingTarget_GSy", "GreedySamplingTarget_nGSx3"}
 SUB_OK = [n for n, e in POOL.items() if e.selection != "rt" and not n.startswith("Badge") and not e.is_wrapper]
 SAW_OK = [n for n, e in POOL.items() if e.kind in ("clf", "both") and e.arbitrary_index_ok and not e.is_wrapper]
 
